@@ -107,7 +107,7 @@ func runC04(rc *RunCtx) {
 			dt := []time.Duration{6 * time.Second, 24 * time.Hour, 20 * 24 * time.Hour, 400 * 24 * time.Hour}[rc.Intn(4)]
 			if _, err := c.NextBlock(dt); err != nil {
 				if _, ok := err.(*chain.PanicError); ok {
-					rc.Abort("BeginBlock panic (C05 territory)")
+					rc.Abort("BeginBlock panic (C05 territory): " + err.Error())
 				} else {
 					rc.Abort(err.Error())
 				}
